@@ -24,6 +24,19 @@ ValMatches(v, d) ==
                           /\ \A i \in 1..Len(v.m) : d.m[i][1] = v.m[i][1].s /\ ValMatches(v.m[i][2], d.m[i][2])
        [] OTHER -> FALSE
 
+\* the same, but object members may come in any order (values that went through an owned hash map)
+RECURSIVE ValMatchesU(_, _)
+ValMatchesU(v, d) ==
+  /\ d.t = v.t
+  /\ CASE v.t = "null" -> TRUE
+       [] v.t = "bool" -> d.b = v.b
+       [] v.t = "str"  -> d.s = v.s
+       [] v.t = "num"  -> NumMatches(v.lit, d)
+       [] v.t = "arr"  -> Len(d.e) = Len(v.e) /\ \A i \in 1..Len(v.e) : ValMatchesU(v.e[i], d.e[i])
+       [] v.t = "obj"  -> Len(d.m) = Len(v.m)
+                          /\ \A i \in 1..Len(v.m) : \E j \in 1..Len(d.m) : d.m[j][1] = v.m[i][1].s /\ ValMatchesU(v.m[i][2], d.m[j][2])
+       [] OTHER -> FALSE
+
 \* error position rules (C20): offset within the input actually given to the entry point,
 \* line/column exactly those of the offset, displayable, never a lookup category
 ErrOk(full, e) ==
